@@ -4,9 +4,25 @@
 import json, os, re, shutil, subprocess, sys, glob
 
 EXTRA = {  # other checks that also see a change
- "C01-m2": ["C02", "C03"], "C03-m2": ["C01"], "C07-m2": ["C15"], "C14-m8": ["C17"], "C17-m7": ["C06"], "C10-m2": ["C12"], "C12-m1": ["C10"], "C19-m1": ["C04"],
+ "C01-m2": ["C02", "C03"], "C03-m2": ["C01"], "C07-m2": ["C15"], "C14-m8": ["C17"], "C01-m10": ["C03"], "C11-m9": ["C12"], "C17-m7": ["C06"], "C10-m2": ["C12"], "C12-m1": ["C10"], "C19-m1": ["C04"],
+}
+UNREPORTED = {
+ "C01-m10": "not reported, deliberately: the change only alters what happens when an instruction's operands are missing *and* its destination stack is full at the same time. The statement does not say which of the two obstacles wins there, and the library itself is not uniform (the integer and float predicates abort in that state, the conversions skip), so the reference model accepts both outcomes; judging one of them would raise alarms on the unchanged tree",
+ "C11-m9": "not reported, deliberately: every clause of the statement still holds (parent genes in order, at most one new gene per position, every new gene handed out by the supplied generator during this call, at most once). What changes is *when* the generator is consulted relative to the deletion coin; observing that needs a genome whose iterator publishes the position being processed, which would also reject a correct eager implementation",
+ "C12-m10": "not reported: the applied probability differs from the configured one by at most 6e-8 (relative), nine orders of magnitude below the resolution of the statistical monitor (stated in the evidence). Deciding it needs an exact threshold measurement that assumes the sampler is a monotone function of a single 64-bit draw - an assumption about the implementation, not part of the property",
 }
 STRENGTHENED = {
+ "C01-m9": "missed at first: only the three ASCII PrintChar instances wired into PushInstruction were performed; PrintChar::<C> is now performed directly for 14 characters of every UTF-8 length, between other output",
+ "C04-m10": "missed at first: try_extend only ever got iterators with a small lower size bound; it now also gets an endless iterator (size hint usize::MAX) on bounded stacks: Overflow, contents untouched, no attempt to reserve what the iterator announces",
+ "C09-m10": "missed at first: random words were only required to be distinct within one step; every word handed to a child maker must now be new across all steps, pools and configurations of the process (a generator re-seeded identically per pool replays)",
+ "C11-m10": "missed at first: the custom gene's negation was an involution, so being negated twice looked like not being negated; it now counts how often it was applied (at most once; exactly once at rate 1, never at rate 0)",
+ "C13-m9": "missed at first: C13 only selected from non-empty populations; it now also selects from an empty one (an all-zero combination still reports its zero-weight error, any other delegates to exactly one positive-weight member)",
+ "C15-m9": "missed at first: Score / Error were only instantiated with totally ordered inner types; they now also wrap f64 with NaNs, infinities and signed zeros (every operator must agree with partial_cmp, all false where it is None), u64 and i128 extremes",
+ "C15-m10": "missed at first: copies were never made through clone_from; EcIndividual and TestResults are now also copied with clone_from and Vec::clone_from (overwriting existing elements) and must equal their source",
+ "C16-m9": "missed at first, as a harness build failure: the change adds Send + Sync bounds to Map's Vec impl, which C14's Rc-based probes do not satisfy, and all ec monitors lived in one binary. Every property now has its own binary, and C16's registry maps an operator over vectors of up to 2049 genomes",
+ "C17-m10": "missed at first: the member errors used behind DynWeighted had no cause chain; a member whose error has a two-level source chain is now used and the whole chain must be reachable through source() from what the list reports",
+ "C18-m10": "missed at first: collection generators were never nested; nested generators with different inner and outer sizes are now built by method call on a generator, through the trait, with Generator::new and owning",
+ "C19-m10": "missed at first: no fixture had fields the macro knows nothing about; the Extra fixture has such fields and a hand-written Default, and the built state must keep their values (Crossed: builder names that are each other's field names)",
  "C04-m7": "missed at first: the monitor trusted `Stack == Vec` as its view of the contents; it now cross-checks that view against the contents obtained by popping a clone (equal to exactly them: not to a proper prefix, an extension, or a same-length sequence differing in one place; Vec, slice and array forms)",
  "C05-m7": "missed at first: genomes always reached the translation through Plushy::new(Vec); they now go through every way of building a Plushy (Vec, iterators without a size hint, iterators whose honest upper bound is astronomically large, FromIterator, chained iterators)",
  "C06-m8": "missed at first: dynamic lists only ever got weights that fit in 32 bits; C06 now also builds them (flat and nested) from usize weights whose total exceeds usize::MAX: an error or a member, never a panic",
@@ -75,5 +91,6 @@ for wt in sorted(glob.glob("/tmp/wt-C*")):
             "caught_by_own_property_check": caught.get(prop, {}).get("exit") == 1,
         }
         if sid in STRENGTHENED: meta["note"] = STRENGTHENED[sid]
+        if sid in UNREPORTED: meta["not_reported_because"] = UNREPORTED[sid]
         json.dump(meta, open(os.path.join(dest, "meta.json"), "w"), indent=1)
         print(sid, "confirmed" if ok else "NOT-CONFIRMED", {k: (v["exit"], v["first_signatures"][:2]) for k, v in caught.items()}, flush=True)
